@@ -40,7 +40,7 @@ def _big_ids(rng, pg):
 
 def gen_cases(ctx):
     rng = ctx.rng
-    n = ctx.n(6000, 120000)
+    n = ctx.n(20000, 300000)
     for i in range(n):
         cls = CLASS_NAMES[i % 4]
         if (i // 4) % 60 == 7:
